@@ -466,6 +466,42 @@ pub fn run(ctx: &Ctx) -> Vec<Eng> {
             });
         }
     }
+    // window occupancy levels: windows that hold W samples of the default rhythm, histories long
+    // enough for the window to fill, for an irregularity to travel through it and to leave it
+    let fills: Vec<usize> = if ctx.thorough { vec![2, 3, 5, 8, 15, 16, 17, 31, 32, 33, 34, 47, 63, 64, 65, 100] } else { vec![2, 3, 8, 16, 31, 32, 33, 40, 64, 65] };
+    let mut e6 = Eng::new(
+        "c12-window-fill",
+        "moving averages (f32 and Quantity in lockstep) whose window holds W samples of the default stream P(0.5 s, cycle {-4,1,10}) (window = (W - 1/2) x 0.5 s), histories of 2W + 8 events differing from the default in at most k positions, deviations {N, E1, P(+0), P(+1ns), P(+0.2 s), P(+1.3 s), P(+3 s)}: the window fills to W samples, the irregular sample(s) travel through it and leave it (several samples leaving in one update, unevenly spaced); same oracles as c12-seqs (time-weighted mean of the window's samples, convexity, variants agree, no panic); an implementation that switches algorithm with the number of samples in the window (running sums, ring buffers, block summation) is exercised on both sides of each switch point",
+        &format!("W in {:?}; k = 1{}", fills, if ctx.thorough { ", and k = 2 for W <= 34" } else { "" }),
+    );
+    for &w in &fills {
+        let hz = 2 * w + 8;
+        let cfg = Cfg::Ma((2 * w as i64 - 1) * (S / 4));
+        let kk = if ctx.thorough && w <= 34 { 2 } else { 1 };
+        let cases = deviation_cases(hz, 7, kk);
+        par_cases(&mut e6, &cases, budget, |c, e| {
+            let mut h: Vec<Ev> = (0..hz).map(|i| Ev::P(S / 2, cyc[i % 3])).collect();
+            for &(p, a) in c {
+                let v = cyc[(p as usize + 1) % 3];
+                h[p as usize] = match a {
+                    0 => Ev::N,
+                    1 => Ev::Er,
+                    2 => Ev::P(0, v),
+                    3 => Ev::P(1, v),
+                    4 => Ev::P(S / 5, v),
+                    5 => Ev::P(13 * (S / 10), v),
+                    _ => Ev::P(3 * S, v),
+                };
+            }
+            e.executions += 1;
+            e.states += 1;
+            e.max_depth = e.max_depth.max(hz as u64);
+            e.transitions += check_history(cfg, &h, e);
+            if c.len() == 1 && c[0].0 == 3 {
+                e.sample(|| format!("{:?} [{}]", cfg, show(&h)));
+            }
+        });
+    }
     let ew = crate::c05::wiring_engine("c12-input-wirings", &[4, 5, 6, 7, 15, 16], 5, budget);
-    vec![e1, e2, e3, e4, e5, ew]
+    vec![e1, e2, e3, e4, e5, e6, ew]
 }
